@@ -5,7 +5,7 @@ import numpy as np
 from .. import core, gen
 
 PROP_FILE = 'Knee/Props/C10.lean'
-PROP_FILES = ['Knee/Props/C10.lean', 'Knee/Props/C10B.lean']
+PROP_FILES = ['Knee/Props/C10.lean', 'Knee/Props/C10B.lean', 'Knee/Props/C10S.lean']
 RULE = ('miss-ratio-like curves (strictly increasing non-negative integer x, y in [0,1] multiples of 2^-10: step curves, convex decays, plateaus, noisy '
         'decays) with n>=4 x (dx, dy, dz) in (0,1] (mostly dyadic so that band arithmetic is exact in float64) x optional x_max / y_range overrides. '
         'Correspondence: the Lean model is fed the z-scores the package computed (uts csd + zscore_array), the integer band width, the float band height and the '
